@@ -133,6 +133,17 @@ func (c *ctx) add(kind, desc, feature string, trivial bool, model, obs, failKey,
 	return cr
 }
 
+// merge appends the cases another context collected.
+func (c *ctx) merge(o *ctx) {
+	for _, cr := range o.cases {
+		cr.Idx = len(c.cases)
+		c.cases = append(c.cases, cr)
+	}
+	for k, v := range o.counts {
+		c.counts[k] += v
+	}
+}
+
 // guard runs f and reports whether it panicked.
 func guard(f func()) (panicked bool, val any) {
 	defer func() {
